@@ -234,6 +234,7 @@ type replayFile struct {
 	Trace    []string   `json:"trace"`
 	Race     bool       `json:"race,omitempty"`
 	Pkg      string     `json:"pkg"`
+	BySeed   bool       `json:"by_seed,omitempty"`
 }
 
 type knownFinding struct {
@@ -424,6 +425,10 @@ func check(prop, tier string) int {
 	for w, r := range results {
 		all = append(all, r.recs...)
 		if r.err != nil {
+			if n := len(r.recs); n > 0 && r.recs[n-1].Digest == "stall" {
+				fmt.Fprintf(os.Stderr, "worker %d stalled at seed %d (%s); the seed is re-run below\n", w, r.recs[n-1].Seed, r.recs[n-1].Viol.Class)
+				continue
+			}
 			next := r.first + uint64(len(r.recs))
 			fmt.Fprintf(os.Stderr, "worker %d died (%v) while running seed %d:\n%s\n", w, r.err, next, tail(r.stderr, 3000))
 			infra = true
@@ -455,7 +460,7 @@ func check(prop, tier string) int {
 		if tape == nil {
 			tape = r.Tape
 		}
-		rf := replayFile{Property: prop, Engine: spec.Engine, Seed: r.Seed, Tier: tier, Tape: tape, Viol: r.Viol, Digest: r.Digest, Trace: r.Trace, Race: spec.Race, Pkg: spec.Pkg}
+		rf := replayFile{Property: prop, Engine: spec.Engine, Seed: r.Seed, Tier: tier, Tape: tape, Viol: r.Viol, Digest: r.Digest, Trace: r.Trace, Race: spec.Race, Pkg: spec.Pkg, BySeed: r.Digest == "stall"}
 		path := filepath.Join(verifDir, "replays", fmt.Sprintf("%s-%d.json", prop, r.Seed))
 		data, _ := json.MarshalIndent(rf, "", " ")
 		if err := os.WriteFile(path, data, 0644); err != nil {
@@ -472,6 +477,7 @@ func check(prop, tier string) int {
 				break
 			}
 			if rr.OK || rr.Viol.Class != r.Viol.Class || rr.Digest != r.Digest {
+				// (a stall is confirmed by stalling again in the same function: class and the "stall" digest)
 				fmt.Fprintf(os.Stderr, "replay %d of %s diverged: ok=%v class=%v digest=%s want class=%s digest=%s\n", k, path, rr.OK, rr.Viol, rr.Digest, r.Viol.Class, r.Digest)
 				okReplay = false
 				break
